@@ -138,6 +138,9 @@ func (bc *boundsCtx) atomInterval(t *Term) *ival {
 		if t.args[1].isConst() && t.args[1].c.Sign() > 0 && t.args[1].c.Cmp(big.NewInt(64)) < 0 {
 			k := uint(t.args[1].c.Int64())
 			intr = &ival{big.NewInt(0), new(big.Int).Sub(new(big.Int).Lsh(big1, 64-k), big1)}
+			if a := bc.interval(t.args[0]); a != nil && a.lo.Sign() >= 0 {
+				intr = &ival{new(big.Int).Rsh(a.lo, k), new(big.Int).Rsh(a.hi, k)}
+			}
 		}
 	}
 	if intr == nil {
@@ -408,6 +411,23 @@ func normalizeComparisons(f *Term) *Term {
 			} else {
 				r = t
 			}
+		case (t.op == "bvsdiv" || t.op == "bvudiv" || t.op == "bvsrem" || t.op == "bvurem") && t.sort.bv == 64 && t.args[1].isConst() && isPow2(t.args[1].c):
+			// division of a non-negative value by 2^k is a shift (wiring for the bit-blaster, and its
+			// interval is known), the remainder a mask
+			a := rw(t.args[0])
+			sh := uint(t.args[1].c.BitLen() - 1)
+			iv := bc.interval(a)
+			if (t.op == "bvudiv" || t.op == "bvurem") || (iv != nil && iv.lo.Sign() >= 0) {
+				if t.op == "bvsdiv" || t.op == "bvudiv" {
+					r = BvBin("bvlshr", a, mkBV(int64(sh), 64))
+				} else {
+					r = BvBin("bvand", a, mkBVbig(new(big.Int).Sub(t.args[1].c, big1), 64))
+				}
+			} else if a != t.args[0] {
+				r = BvBin(t.op, a, t.args[1])
+			} else {
+				r = t
+			}
 		case t.op == "=" && t.args[0].sort.bv == 64 && !t.bound && (isSum(t.args[0]) || isSum(t.args[1])):
 			a, b := rw(t.args[0]), rw(t.args[1])
 			r = eqZero(mkAdd(64, a, bvNegate(b)), 0)
@@ -573,4 +593,11 @@ func splitOnConditions(f *Term, depth int) []*Term {
 		out = append(out, splitOnConditions(g, depth-1)...)
 	}
 	return out
+}
+
+func isPow2(c *big.Int) bool {
+	if c.Sign() <= 0 || c.Cmp(two63) >= 0 {
+		return false
+	}
+	return new(big.Int).And(c, new(big.Int).Sub(c, big1)).Sign() == 0 && c.Cmp(big1) > 0
 }
